@@ -27,11 +27,13 @@ fn new_sender(chunk_size: usize, pool: u32, queue: usize) -> TxFix {
     TxFix { tx, evt_rx, evt_tx, prov }
 }
 
-fn try_send_case(len: usize) {
+/// `occupied`: slots of the event queue (capacity 3) already taken - concrete per harness: with a
+/// symbolic fill level the queue-full error path (which moves a `PortEvt` through nested enums and
+/// runs its drop glue with a discriminant CBMC no longer sees as constant) is explored at every chunk.
+fn try_send_case(len: usize, occupied: usize) {
     const CHUNK: usize = 2;
     let pool: u32 = kani::any();
-    let occupied: usize = kani::any();
-    kani::assume(occupied <= 3);
+    assert!(occupied <= 3);
     let mut f = new_sender(CHUNK, pool, 3);
     let mut k = 0;
     while k < occupied {
@@ -106,14 +108,15 @@ fn try_send_case(len: usize) {
 }
 
 macro_rules! try_send_harness {
-    ($($name:ident, $len:expr;)*) => {$(
+    ($($name:ident, $len:expr, $occ:expr;)*) => {$(
         with_lean_model! {
         /// @prop C01 C02 C03
         /// @tier quick
+        /// @covers any
         /// @fn chmux::sender::Sender::try_send
         /// @fn chmux::credit::CreditUser::try_request
         /// @fn chmux::credit::AssignedCredits::take
-        /// @bounds message length concrete per harness (family: 0, 1, 2, 3, 5 bytes), chunk size 2; credit pool symbolic (full u32); event queue of capacity 3 with 0..=3 slots already occupied
+        /// @bounds message length concrete per harness (family: 0, 1, 2, 3, 5 bytes), chunk size 2; credit pool symbolic (full u32); event queue of capacity 3 with a concrete number of slots already occupied (family: 0 = room for every chunk, 2 = fills after the first chunk, 3 = full from the start)
         /// @outside other chunk sizes, messages longer than 5 bytes
         /// the message is split into chunks of at most the advertised chunk size, first/last marked exactly on the first/final chunk, bytes and order preserved, one credit per byte (one for an empty message) deducted and never more than the pool holds; on failure nothing or an unfinished prefix is queued and every credit not put on the wire is back in the pool (no leak)
         #[kani::proof]
@@ -121,16 +124,20 @@ macro_rules! try_send_harness {
         #[kani::stub(alloc::fmt::format, empty_format)]
         #[kani::stub(<crate::chmux::PortNumber as std::ops::Drop>::drop, noop_port_number_drop)]
         fn $name() {
-            try_send_case($len);
+            try_send_case($len, $occ);
         }
         }
     )*};
 }
 
 try_send_harness! {
-    c03_try_send_len0, 0;
-    c03_try_send_len1, 1;
-    c03_try_send_len2, 2;
-    c03_try_send_len3, 3;
-    c03_try_send_len5, 5;
+    c03_try_send_len0, 0, 0;
+    c03_try_send_len1, 1, 0;
+    c03_try_send_len2, 2, 0;
+    c03_try_send_len3, 3, 0;
+    c03_try_send_len5, 5, 0;
+    c03_try_send_len0_full, 0, 3;
+    c03_try_send_len3_full, 3, 3;
+    c03_try_send_len3_fills, 3, 2;
+    c03_try_send_len5_fills, 5, 1;
 }
